@@ -34,7 +34,7 @@ def main():
     # scratch copy of the simulator, path dependencies pointed at the scratch worktree
     sim = os.path.join(root, "sim")
     sh(["rsync", "-a", "--delete", "/verif/sim/", sim + "/"])
-    for sub in ("driver", "driver-alloc"):
+    for sub in ("driver", "driver-alloc", "driver-min"):
         p = os.path.join(sim, sub, "Cargo.toml")
         t = open(p).read().replace('path = "/repo/', 'path = "%s/' % wt)
         open(p, "w").write(t)
